@@ -1,0 +1,39 @@
+//go:build verif
+// +build verif
+
+package store
+
+import (
+	"fmt"
+	"sort"
+
+	"github.com/LemoFoundationLtd/lemochain-core/common"
+)
+
+// VerifNewDetachedQueue returns a FileQueue on `home` whose asynchronous bitcask writer is NOT started:
+// Put/PutBatch run the real code (encode, emptyFile, append to tmp.data + fsync, setIndex, hand-over to
+// the writer's channel), the handed-over records stay in queue.SyncFileDB.WriteChan until the caller
+// takes them out and acknowledges them with VerifAfterPut. No LevelDB is needed for that.
+func VerifNewDetachedQueue(home string) (*FileQueue, error) {
+	queue := NewFileQueue(home, nil, nil)
+	return queue, queue.checkFile()
+}
+
+// VerifAfterPut is what FileQueue.start does with a record the writer reports as done (real delIndex).
+func (queue *FileQueue) VerifAfterPut(op *Inject) {
+	queue.afterPut(op)
+}
+
+// VerifIndexDump lists the pending index as "hexkey:flag:refCnt", sorted.
+func (queue *FileQueue) VerifIndexDump() []string {
+	queue.IndexRW.RLock()
+	defer queue.IndexRW.RUnlock()
+	out := make([]string, 0, len(queue.Index))
+	for k, v := range queue.Index {
+		out = append(out, fmt.Sprintf("%s:%d:%d", k, v.flg, v.refCnt))
+	}
+	sort.Strings(out)
+	return out
+}
+
+var _ = common.ToHex
